@@ -1,9 +1,11 @@
 (* RunC19.v -- runner for C19.
-   case  ::= (case <cfg> <doc> <prev> <full> <cut> (chunks n...) <job>)
+   case  ::= (case <cfg> <doc> <prev> <full> <cut> (chunks n...) <job> [<pad>])
      cfg            : (cfg table|stream plain|inc <max_id> (d trailer...) (ids n...)) -- xref format, and the
                       state of the document object before the save: max_id, trailer, numbers of the objects written
      doc, prev      : read by the harness only
-     full           : the implementation's complete output for this document (perfect sink)
+     full           : the implementation's complete output for this document (perfect sink), as one atom or as
+                      (f x.. x.. ...), the concatenation of short atoms
+     pad            : read by the harness only (large streams it adds to doc)
      cut            : number of bytes written before the save path mutates the document
      chunks         : cyclic list of buffer sizes; the model presents `full` to the sink as this
                       sequence of write_all calls (cut at `cut` as well)
@@ -11,21 +13,33 @@
            | (sweep (script r...) <hard> lo hi step) -> (sweep (<rc> <delivered length> <max_id> <Size> <resave same>) ...)
              for p = lo, lo+step, ... <= hi: the positional sink that follows the soft script for
              its first p bytes and then answers <hard>
+           | (path <target> (sizes n...))            -> (pres <rc> <file content> (state max_id trailer) <resave same>)
+             Document::save(path) / IncrementalDocument::save(path) (Model/SinkBuf.v, capacity 8192); `sizes` = the
+             write_all buffers the implementation really issues for this document (measured by the harness with a
+             recording sink), so that WHEN the BufWriter flushes -- and with it whether the mutation point is reached
+             before the failure surfaces -- is the implementation's own
+             target ::= file            a healthy file
+                      | dir             the path is a directory: File::create fails (IsADirectory)
+                      | full            /dev/full: every write fails with StorageFull
+                      | (limit p)       a file that takes p bytes, then fails every write with FileTooLarge (RLIMIT_FSIZE)
+           | (psweep (sizes n...) (at p...))         -> (psweep (<rc> <file length> <max_id> <Size> <resave same>) ...)
+             target (limit p) for each listed p
      r  ::= (a k) | i | z | (f kind)        rc ::= ok | (err kind)                                  *)
-From LV Require Import Base.Bytes Base.Sx Model.Obj Model.Sink Model.SaveState.
+From LV Require Import Base.Bytes Base.Sx Model.Obj Model.Sink Model.SaveState Model.SinkBuf.
 
 Local Open Scope string_scope.
 Definition kinds : list (String.string * ekind) :=
   [("other", EOther); ("brokenpipe", EBrokenPipe); ("denied", EPermissionDenied); ("wouldblock", EWouldBlock);
    ("timedout", ETimedOut); ("writezero", EWriteZero); ("eof", EUnexpectedEof); ("oom", EOutOfMemory);
-   ("invaliddata", EInvalidData); ("storagefull", EStorageFull)].
+   ("invaliddata", EInvalidData); ("storagefull", EStorageFull); ("isadir", EIsADirectory); ("filetoolarge", EFileTooLarge)].
 Local Close Scope string_scope.
 
 Definition ekind_eqb (a b : ekind) : bool :=
   match a, b with
   | EOther, EOther | EBrokenPipe, EBrokenPipe | EPermissionDenied, EPermissionDenied | EWouldBlock, EWouldBlock
   | ETimedOut, ETimedOut | EWriteZero, EWriteZero | EUnexpectedEof, EUnexpectedEof | EOutOfMemory, EOutOfMemory
-  | EInvalidData, EInvalidData | EStorageFull, EStorageFull => true
+  | EInvalidData, EInvalidData | EStorageFull, EStorageFull | EIsADirectory, EIsADirectory
+  | EFileTooLarge, EFileTooLarge => true
   | _, _ => false
   end.
 
@@ -120,12 +134,96 @@ Definition run_job (c : cfg) (pre post : list bytes) (job : sx) : option sx :=
   | _ => None
   end.
 
+(* ---- save(path) ---- *)
+(* cut b into consecutive buffers of the given sizes; returns the unused sizes (a size that straddles the
+   end of b is split) *)
+Fixpoint chop (sizes : list nat) (b : bytes) : list bytes * list nat :=
+  match sizes with
+  | [] => (match b with [] => [] | _ => [b] end, [])
+  | n :: rest =>
+    match b with
+    | [] => ([], sizes)
+    | _ => let h := firstn n b in
+           let m := length h in
+           if (m <? n)%nat then ([b], (n - m)%nat :: rest)
+           else let '(l, r) := chop rest (skipn n b) in (h :: l, r)
+    end
+  end.
+
+(* long byte strings come as a list of short atoms, (f x.. x.. ...): the shared parser reverses every atom with
+   the quadratic List.rev *)
+Definition bytes_of_parts (x : sx) : option bytes :=
+  match x with
+  | SA _ => as_bytes x
+  | SL (t :: l) => if is_id t "f" then option_map (@concat byte) (omap as_bytes l) else None
+  | SL [] => None
+  end.
+
+(* the device behind each target: File::create's verdict and the file's script (positional reading) *)
+Definition device_of (target : sx) : option (option ekind * script) :=
+  match target with
+  | SA _ =>
+    if is_id target "file" then Some (None, [])
+    else if is_id target "dir" then Some (Some EIsADirectory, [])
+    else if is_id target "full" then Some (None, repeat (Fail EStorageFull) 64)
+    else None
+  | SL [t; p] =>
+    if is_id t "limit" then
+      do p <- as_N p;
+      Some (None, (if (p =? 0)%N then [] else [Accept p]) ++ repeat (Fail EFileTooLarge) 64)
+    else None
+  | _ => None
+  end.
+
+Definition sizes_of_sx (x : sx) : option (list nat) :=
+  match x with SL (t :: l) => if is_id t "sizes" then option_map (map small) (omap as_N l) else None | _ => None end.
+
+Definition run_path (c : cfg) (full : bytes) (cut : N) (sizes : list nat) (target : sx) : option (wres * bytes * sstate) :=
+  do dv <- device_of target;
+  let '(a, b) := cut_at full cut in
+  let '(pre, rest) := chop sizes a in
+  let '(post, _) := chop rest b in
+  Some (save_path_with qwrite_all DEFAULT_BUF_SIZE (c_mode c) (c_ids c) pre post (c_state c) (fst dv) (snd dv)).
+
+Definition run_path_job (c : cfg) (full : bytes) (cut : N) (job : sx) : option sx :=
+  match job with
+  | SL [t; a1; a2] =>
+    if is_id t "path" then
+      do sizes <- sizes_of_sx a2;
+      do res <- run_path c full cut sizes a1;
+      let '(r, f, st') := res in
+      Some (SL [sx_id "pres"; rc_to_sx r; sx_bytes f; state_to_sx st'; sx_bool (resave_same (c_mode c) (c_state c) st')])
+    else if is_id t "psweep" then
+      do sizes <- sizes_of_sx a1;
+      match a2 with
+      | SL (ta :: ps) =>
+        if is_id ta "at" then
+          do ps <- omap as_N ps;
+          do rows <- omap (fun p =>
+                             do res <- run_path c full cut sizes (SL [sx_id "limit"; sx_N p]);
+                             let '(r, f, st') := res in
+                             Some (SL [rc_to_sx r; sx_N (N.of_nat (length f)); sx_N (s_max_id st'); sx_Z (size_of st');
+                                       sx_bool (resave_same (c_mode c) (c_state c) st')])) ps;
+          Some (SL (sx_id "psweep" :: rows))
+        else None
+      | _ => None
+      end
+    else None
+  | _ => None
+  end.
+
+Definition is_path_job (job : sx) : bool :=
+  match job with SL (t :: _) => is_id t "path" || is_id t "psweep" | _ => false end.
+
 Definition run (x : sx) : sx :=
   match x with
-  | SL [t; cf; _doc; _prev; full; cut; SL (tc :: sizes); job] =>
+  | SL (t :: cf :: _doc :: _prev :: full :: cut :: SL (tc :: sizes) :: job :: _pad) =>
     if is_id t "case" && is_id tc "chunks" then
-      match cfg_of_sx cf, as_bytes full, as_N cut, omap as_N sizes with
+      match cfg_of_sx cf, bytes_of_parts full, as_N cut, omap as_N sizes with
       | Some c, Some full, Some cut, Some sizes =>
+        if is_path_job job then
+          match run_path_job c full cut job with Some r => r | None => sx_id "badcase" end
+        else
         let '(a, b) := cut_at full cut in
         let sz := map small sizes in
         match run_job c (chunked sz a) (chunked sz b) job with
